@@ -108,16 +108,19 @@ def scanner_tie(rep, rng):
         why = ""
         wf = G.ref_wellformed(t)
         rep.count("scanner_text_wellformed", str(wf))
-        if not kcls and wf:
-            if hang:
-                oracle_ok, why = False, "scanner does not terminate"
-            else:
-                joined = "\n".join(real)
-                ref = G.ref_blank("\n".join(in_lines))
-                if len(joined) != len(ref):
-                    oracle_ok, why = False, "scanned text changes length"
-                elif G.visible_structure(t, joined) != G.visible_structure(t, ref):
-                    oracle_ok, why = False, "structural characters visible to the item search differ from the reference lexer"
+        for fc, pred in G.FIXED_CLASSES:
+            if pred(t):
+                rep.count("scanner_regression_input", fc)
+        if hang:
+            # C16_atp_terminates: the repaired scanner returns on every line (recurrence of F8 = failing input)
+            oracle_ok, why = False, "scanner does not terminate"
+        elif not kcls and wf:
+            joined = "\n".join(real)
+            ref = G.ref_blank("\n".join(in_lines))
+            if len(joined) != len(ref):
+                oracle_ok, why = False, "scanned text changes length"
+            elif G.visible_structure(t, joined) != G.visible_structure(t, ref):
+                oracle_ok, why = False, "structural characters visible to the item search differ from the reference lexer"
         rep.oblige(agree and oracle_ok)
         if agree and oracle_ok:
             continue
@@ -176,13 +179,15 @@ def surgery_tie(rep, rng):
             args.insert(rng.randint(0, len(args)), edit)
         multi = rng.random() < 0.6
         attr = "#[" + G.render_meta(rng, (path, "list", args), nl=multi, comment=multi and rng.random() < 0.4) + "]"
-        if G.cls_edit_file_trailing_comma(attr) or G.cls_file_list_trailing_comma(attr):
-            legal = False     # known-finding classes: only model = code is demanded
+        if G.cls_edit_file_trailing_comma(attr):
+            legal = False     # known-finding class: only model = code is demanded
+        if G.cls_file_list_trailing_comma(attr):
+            rep.count("surgery_regression_input", "file-list-trailing-comma")
         cases.append({"attr": attr, "legal": legal, "fam": fam, "active_expected": None})
     jobs = []
     for c in cases:
         c["actv"] = G.ref_blank(c["attr"])
-        c["attr1"] = c["attr"] + rng.choice(["\n", " ", "i"])
+        c["attr1"] = c["attr"]      # split_file hands exactly the attribute bytes to the surgery
         jobs += [("fn:edit_remove", ["", c["actv"], c["attr1"]]), ("fn:file_ranges", ["", c["actv"]]), ("fn:attr_string", ["", c["attr"]])]
     res = hook.run_parallel(jobs, tag="c16sur", shards=8, timeout=300)
     if res is None:
@@ -233,17 +238,17 @@ def surgery_tie(rep, rng):
                 oracle_ok, why = False, "surgery panicked on a legal specification"
             else:
                 out = c["rm"][1][0]
-                if not out.endswith(c["attr1"][-1]) or not is_subseq(out, c["attr1"]):
+                if not is_subseq(out, c["attr1"]):
                     oracle_ok, why = False, "surgery output is not the attribute with characters deleted"
                 else:
                     try:
-                        got = G.parse_meta(G.attr_tokens(out[:-1]))
+                        got = G.parse_meta(G.attr_tokens(out))
                     except Exception:
                         got = None
                     if got != G.strip_file(tree):
                         oracle_ok, why = False, "attribute after surgery is not the specification with its file markers removed"
                     else:
-                        second.append((k, out[:-1]))
+                        second.append((k, out))
         rep.oblige(ok_rm and ok_rg and ok_as and oracle_ok)
         if k % 61 == 0:
             rep.sample({"attribute": c["attr"], "after_surgery": c["rm"][1][0] if c["rm"][0] == "VALUE" else c["rm"][0]})
@@ -345,8 +350,7 @@ def e2e(rep, rng):
         p = os.path.join(SCRATCH, "f%d.rs" % k)
         while True:
             c = G.gen_file_case(rng, p, safe=True)
-            if (not G.known_classes(c["src"]) and not G.cls_edit_file_trailing_comma(c["attr"]) and not G.cls_file_list_trailing_comma(c["attr"])
-                    and not (c["remove"] and c["sep"] == "")):
+            if not G.known_classes(c["src"]) and not G.cls_edit_file_trailing_comma(c["attr"]):
                 break
         if rng.random() < 0.12:
             c["src_disk"] = c["src"].replace("\n", "\r\n")
@@ -367,6 +371,13 @@ def e2e(rep, rng):
         rep.count("e2e_edit", "edit(file)" if c["remove"] else "markers")
         rep.count("e2e_macro_path", c["form"])
         rep.count("e2e_line_endings", "crlf" if "\r" in c["src_disk"] else "lf")
+        for fc, pred in G.FIXED_CLASSES:
+            if pred(c["src"]):
+                rep.count("e2e_regression_input", fc)
+        if c["sep"] == "":
+            rep.count("e2e_regression_input", "attr-directly-followed" + (":edit(file)" if c["remove"] else ""))
+        if G.cls_file_list_trailing_comma(c["attr"]):
+            rep.count("e2e_regression_input", "file-list-trailing-comma")
         if c["cls"] != "TOKENS":
             ok = c["after"] == c["src_disk"]
             rep.oblige(False)
@@ -446,7 +457,7 @@ def witness(name, pre="", inimpl="", args='file="%s", edit(file(script(def)))', 
 def witnesses():
     w = [
         ("char-blank-or-comma", witness("w_char_blank", pre="const SP: char = ' ';\n"), "hang"),
-        ("char-escaped-quote", witness("w_char_escaped_quote", pre="fn q() -> char { '\\'' }\n"), "hang"),
+        ("char-escaped-quote", witness("w_char_escaped_quote", pre="fn q() -> [char; 2] { ['\\'','x'] }\nfn q2() -> char { '\\'' }\n"), "hang"),
         ("lifetime-unterminated", witness("w_lifetime_unterminated", pre="pub trait Tr<'a> { fn get(&self) -> Wrap<'a>;\n}\n"), "refused"),
         ("lifetime-exposes-literal", witness("w_lifetime_exposes_literal", inimpl='    pub fn name(&self) -> &\'static str { "}" }\n'), "refused"),
         ("string-trailing-backslash", witness("w_string_trailing_backslash", pre='const BS: &str = "\\\\";\n'), "refused"),
@@ -459,6 +470,9 @@ def witnesses():
     copy = '#[interthread::actor(file="%s", edit(file(script(def))))]\n' % p2 + IMPL_W % ""
     w.append(("nested-block-comment", witness("w_nested_comment", pre="/* outer /* inner */\n" + copy + "\n*/\n"), "corrupt"))
     return w
+
+
+REPAIRED = {"char-blank-or-comma", "char-escaped-quote", "attr-directly-followed", "file-list-trailing-comma"}
 
 
 def replay_known(rep):
@@ -483,6 +497,13 @@ def replay_known(rep):
             status, detail = ("ok", "") if ok else ("corrupt", why)
         rep.evaluations += 1
         rep.count("known_witness", "%s:%s" % (cls, status))
+        if cls in REPAIRED:
+            # regression input of a repaired defect: must be rewritten correctly, a recurrence is a violation
+            rep.oblige(status == "ok")
+            if status != "ok":
+                rep.violation("regression_%s" % cls, {"what": "repaired defect is back: " + detail, "source": c["src"], "attr": c["attr"],
+                                                      "item": c["item"], "observed": after}, found=True)
+            continue
         if status == "ok":
             rep.notes.append("known-finding witness %s no longer fails (class can be retired)" % cls)
             continue
@@ -513,7 +534,7 @@ def run(rep):
         "ASCII source files and attributes (byte offsets = char offsets in the Coq text models); non-ASCII is outside the theorems' domain",
         "the item search (ItemCodeBlock::get_item_code) is modelled by its located offsets (attribute start/end, impl end), checked per case against the generator's ground truth; syn::parse_str equality inside it is not modelled",
         "generated code inside the inserted block is a parameter of the assembly model (its content belongs to C05-C15); un-commenting and compiling the block is not run",
-        "source files outside the known-finding input classes: " + ", ".join(n for n, _ in G.CLASSES) + ", edit-file-trailing-comma, file-list-trailing-comma, attr-directly-followed, doc-comment-on-impl (each replayed separately)",
+        "source files outside the known-finding input classes: " + ", ".join(n for n, _ in G.CLASSES) + ", edit-file-trailing-comma, doc-comment-on-impl (each replayed separately); the repaired classes char-blank-or-comma, char-escaped-quote, attr-directly-followed, file-list-trailing-comma are part of every corpus and replayed as regression inputs",
         "family-level write-to-file is covered only at the surgery level (attribute texts), not end to end (family edit parsing is F7 / C15)",
         "line terminators: CRLF input is compared after CRLF->LF normalisation, a final terminator may be dropped",
     ]
